@@ -26,16 +26,22 @@ C02_MODELS = {'scalars', 'collections', 'plain', 'extra', 'dashed',
               'dashed_sav', 'enum_str', 'hier', 'hooks', 'ambig', 'optreq',
               'chain', 'absmix', 'unk', 'mixin', 'nested', 'dictkey',
               'lists', 'mergecls', 'extradef', 'absmid', 'dashextra', 'tree',
-              'treex', 'index', 'savopt', 'underhier', 'floatint'}
+              'treex', 'index', 'savopt', 'underhier', 'floatint', 'pathdate',
+              'deepcont', 'lackparam', 'extramid', 'diamond', 'absonly',
+              'ydefload', 'sibhooks'}
 C03_MODELS = {'hier', 'discrim', 'ambig', 'enum_str', 'plain', 'multi',
               'chain', 'absmix', 'mixin', 'inhrec', 'samename', 'absmid',
-              'extradef', 'tree', 'underhier', 'diamond', 'absonly'}
+              'extradef', 'tree', 'underhier', 'diamond', 'absonly', 'lackparam',
+              'sibhooks'}
 C10_MODELS = {'hooks', 'dashed_sav', 'adversarial', 'parsed', 'mixin', 'multi',
               'samename', 'inhrec', 'index', 'savopt', 'savnest', 'enumsav',
-              'diamond'}
+              'diamond', 'sibhooks'}
 C17_STRONG = {'plain', 'extra', 'dashed_sav', 'enum_str', 'collections',
               'scalars'}
-C17_STRONG_LOAD = {'tree', 'savopt'}
+C17_STRONG_LOAD = {'tree', 'savopt', 'reqnest'}
+# class models whose hooks create no node of their own (set_value keeps the
+# marks of the node it replaces): no error may cite a "generated node"
+C17_NO_GENERATED = {'tosc', 'setval'}
 
 
 def write_models(dimplicit=None):
@@ -531,6 +537,10 @@ def rel_c17(c):
         out.append(('impl', 'RecognitionError for %r as %s cites no position:'
                     ' %r' % (o['text'], json.dumps(c['dt']),
                              o['message'][:300]), None))
+    if c['model'] in C17_NO_GENERATED and 'in "generated node"' in o['message']:
+        out.append(('impl', 'RecognitionError for %r cites a position that is '
+                    'not in the document ("generated node"): %r' % (
+                        o['text'], o['message'][:300]), None))
     for line, col in o['cited']:
         if not (1 <= line <= nlines):
             out.append(('impl', 'RecognitionError for %r cites line %d, the '
